@@ -10,6 +10,7 @@ import (
 	"go/types"
 	"os"
 	"regexp"
+	"strings"
 
 	"github.com/quasilyte/gogrep"
 	"github.com/quasilyte/gogrep/nodetag"
@@ -479,7 +480,16 @@ func (l *irLoader) unwrapInterfaceExpr(filter ir.FilterExpr) (*types.Interface, 
 		return nil, l.errorf(filter.Line, nil, "expected a non-empty type name string")
 	}
 
-	typ, err := l.state.FindType(l.importer, l.pkg, typeString)
+	// A qualified name `pkg.T` is resolved through the imports table first
+	// (the group Import() calls, then the stdlib defaults);
+	// everything else is treated as a fully-qualified name.
+	fqn := typeString
+	if pkgName, typeName, ok := strings.Cut(typeString, "."); ok && token.IsIdentifier(pkgName) && token.IsIdentifier(typeName) {
+		if pkgPath, ok := l.itab.Lookup(pkgName); ok {
+			fqn = pkgPath + "." + typeName
+		}
+	}
+	typ, err := l.state.FindType(l.importer, l.pkg, fqn)
 	if err == nil {
 		iface, ok := typ.Underlying().(*types.Interface)
 		if !ok {
